@@ -381,7 +381,7 @@ func fail(r *hk.Run, p, site, class string, in interface{}, detail string) {
 }
 
 func run(r *hk.Run) {
-	r.SetCoq("From NV Require Import Lib.Base Codec.Lang Codec.Def Codec.Sem Codec.Dispatch Codec.Corr.\nFrom Coq Require Import String.\nOpen Scope N_scope.\nOpen Scope string_scope.", "case")
+	r.SetCoq("From NV Require Import Lib.Base Codec.Lang Codec.Def Codec.Sem Codec.Dispatch Codec.GenDefs Codec.Corr.\nFrom Coq Require Import String.\nOpen Scope N_scope.\nOpen Scope string_scope.", "case")
 	for _, mi := range genMsgs {
 		msgs = append(msgs, analyse(mi))
 	}
